@@ -214,7 +214,12 @@ def _urljoin(base, url):
     """
     base, baseFrag = urldefrag(base)
     url, urlFrag = urldefrag(urljoin(base, url))
-    return urljoin(url, b"#" + (urlFrag or baseFrag))
+    # Put the fragment back by hand: urljoin(url, b"#" + fragment) returns the
+    # bare fragment reference when the scheme of url is one urllib.parse does
+    # not resolve relative references for (an application call-back, git://,
+    # mailto:, ...).
+    scheme, netloc, path, params, query, _ = http.urlparse(url)
+    return urlunparse((scheme, netloc, path, params, query, urlFrag or baseFrag))
 
 
 def _makeGetterFactory(url, factoryFactory, contextFactory=None, *args, **kwargs):
